@@ -20,7 +20,7 @@ Every monitor is a relation between two executions of the same JSON case
                 PartiallySerializableDesignerPolicy, which writes designer state into the
                 study metadata); every run must be given the same problem statement and
                 every run with the case's seed must equal the run of brand-new objects
-  in-ram-twin   (quasi-random, shuffled grid) a designer rebuilt and restored from the
+  in-ram-twin   (quasi-random, shuffled grid, eagle) a designer rebuilt and restored from the
                 study metadata at every request vs the same designer kept in RAM
 
 plus seed sensitivity (different seeds => different streams on >= 2**10 points)
@@ -62,7 +62,7 @@ RULE = ('case = (designer in {random, quasi-random, shuffled grid, eagle, NSGA-I
         'case is executed 3-6 times under the variants above; distinct = hash of (type, '
         'designer, wrapper, space shape, batch profile, seed class, experimenter '
         'transformations); non-trivial when the run made >= 2 suggestions. Seeds: a fifth of '
-        'the stream cases and two thirds of the "hosted" cases (quasi-random / shuffled grid '
+        'the stream cases and two thirds of the "hosted" cases (quasi-random / shuffled grid / eagle '
         'under a new PartiallySerializableDesignerPolicy per request, 3-6 requests, compared '
         'with the in-RAM twin) draw the seed from the rim of the designer\'s accepted domain '
         '(negative where accepted, 2**31..2**32, beyond 2**32 up to 80 bits). "Shared '
@@ -84,8 +84,8 @@ ASSUMPTIONS = [
     'random state of its own (NumpyExperimenter, SignFlip, Shifting, HashingInfeasible); '
     'noisy experimenters are shared only through their factory',
     'restored-per-request == in-RAM is only demanded of the designers whose dump() persists '
-    'the whole stream state (quasi-random, shuffled grid); Eagle / NSGA-II / CMA-ES are '
-    'compared with themselves under the same hosting only',
+    'the whole stream state (quasi-random, shuffled grid, Eagle: generator + pool + initial '
+    'designer); NSGA-II / CMA-ES are compared with themselves under the same hosting only',
     'seeds outside a designer\'s accepted domain (negative for numpy-seeded designers, '
     '>= 2**32 for RandomState-seeded ones) are not generated',
     'the Eagle phase reached by a history is read from the eagle/parent_fly_id metadata of '
